@@ -296,7 +296,7 @@ NodeStore(S, t) ==
         r == f.result
         (* only the request that executed the node starts the sub-graph; a duplicate request that reads the marker does not *)
         S1 == IF IsRec(r)
-              THEN SetTop(IF f.dup THEN S
+              THEN SetTop(IF f.dup \/ <<A(n).start, n>> \in S.active THEN S     \* ... nor an execution inside the running sub-graph
                           ELSE Spawn(S, "rec-" \o n, [fn |-> "rec", pc |-> "q0", n |-> n, dag |-> f.dag, iter |-> 0, data |-> r[3], sub |-> 0]),
                           t, [f EXCEPT !.unlock = FALSE])
               ELSE S
